@@ -109,32 +109,48 @@ GammaResult in_gamma(const AbsVal &inv, const Sigma &s, const GammaOpts &o, Gamm
   if (inv.is_bottom())
     return fail("bottom", "value is bottom but a concrete state exists: " + s.str());
 
-  for (auto &p : s.ints) {
-    interval_t i = inv.at(p.first);
-    if (!interval_contains(i, p.second))
-      return fail("at", p.first.name().str() + "=" + p.second.get_str() + " not in at()=" +
-                            itv_str(i));
+  // A query that crab refuses (CRAB_ERROR, e.g. at() / operator[] /
+  // to_linear_constraint_system() of a product_value_partitioning_domain that has
+  // partitions: "at unreachable") is not an answer: the item is skipped and the
+  // remaining items still judge the value.
+  try {
+    for (auto &p : s.ints) {
+      interval_t i = inv.at(p.first);
+      if (!interval_contains(i, p.second))
+        return fail("at", p.first.name().str() + "=" + p.second.get_str() + " not in at()=" +
+                              itv_str(i));
+    }
+  } catch (const FatalError &) {
+    hooks().refused_queries++;
   }
   if (o.use_index) {
-    AbsVal::P c = inv.clone();
-    for (auto &p : s.ints) {
-      interval_t i = c->index(p.first);
-      if (!interval_contains(i, p.second))
-        return fail("index", p.first.name().str() + "=" + p.second.get_str() +
-                                 " not in operator[]=" + itv_str(i));
+    try {
+      AbsVal::P c = inv.clone();
+      for (auto &p : s.ints) {
+        interval_t i = c->index(p.first);
+        if (!interval_contains(i, p.second))
+          return fail("index", p.first.name().str() + "=" + p.second.get_str() +
+                                   " not in operator[]=" + itv_str(i));
+      }
+    } catch (const FatalError &) {
+      hooks().refused_queries++;
     }
   }
   if (o.export_lin) {
-    lin_cst_sys_t local;
-    if (cache && !cache->has_lin) {
-      cache->lin = inv.to_lin();
-      cache->has_lin = true;
-    } else if (!cache)
-      local = inv.to_lin();
-    const lin_cst_sys_t &sys = cache ? cache->lin : local;
-    for (auto const &c : sys) {
-      if (eval_cst_sigma(c, s) == 0)
-        return fail("lin", "exported constraint " + cst_str(c) + " is false in " + s.str());
+    try {
+      lin_cst_sys_t local;
+      if (cache && !cache->has_lin) {
+        cache->lin = inv.to_lin();
+        cache->has_lin = true;
+      } else if (!cache)
+        local = inv.to_lin();
+      const lin_cst_sys_t &sys = cache ? cache->lin : local;
+      for (auto const &c : sys) {
+        if (eval_cst_sigma(c, s) == 0)
+          return fail("lin", "exported constraint " + cst_str(c) + " is false in " + s.str());
+      }
+    } catch (const FatalError &) {
+      hooks().refused_queries++;
     }
   }
   if (o.export_disj) {
